@@ -147,3 +147,10 @@ def run(ctx):
             if max(np.max(np.abs(zmean)), np.max(np.abs(zvar))) > 6.1:
                 ctx.violation("draw-moments", "sample moments of %d draws deviate from N(a, A): z(mean)=%s z(var)=%s [%s contrast]"
                               % (nd, np.round(zmean, 2), np.round(zvar, 2), kind), dict(kind=kind, a=ref["a"], A=ref["A"]))
+
+    # a monitor that could not recognise the recorded draw pattern has not judged that session: if that happens often the
+    # verdict is "inconclusive", never "held"
+    _skipped = ctx.counters.get("pattern_not_found", 0) + ctx.counters.get("sessions_without_row_identity", 0) \
+        + ctx.counters.get("rejection_sessions_without_row_identity", 0) + ctx.counters.get("iterative_sessions_without_row_identity", 0)
+    if ctx.replay is None and _skipped > 0.25 * (n):
+        ctx.inconclusive = "%d of %d sessions could not be judged (draw pattern or row identity not recognised)" % (_skipped, n)
